@@ -590,17 +590,15 @@ def colInts : Val → List Int
   | .dict [(_, .list xs)] => xs.filterMap fun x => match x with | .int i => some i | _ => none
   | _ => []
 
-theorem exBatched_selfAlone : SelfAlone exBatched := fun k k' rest h => by simp [exBatched] at h
-
 /-- the hypothesis of `C08_batched_apply` / `C08_refines_batched_partial` holds for a concrete batched
 operator (both skipping modes), also in a chain with an un-batched operator behind it -/
 example : BatchedOK true exBatched exBatched.s0 exColSrc :=
-  batchedOKB_sound _ _ _ _ (Or.inr rfl) exBatched_selfAlone (by decide +kernel)
+  batchedOKB_sound _ _ _ _ (Or.inr rfl) (fun k k' rest h => by simp [exBatched] at h) (by decide +kernel)
 
 example : RunOKG false [exBatched] exColSrc :=
   ⟨by unfold OpOKG
       simp only [exBatched]
-      exact batchedOKB_sound _ _ _ _ (Or.inr rfl) exBatched_selfAlone (by decide +kernel), trivial⟩
+      exact batchedOKB_sound _ _ _ _ (Or.inr rfl) (fun k k' rest h => by simp [exBatched] at h) (by decide +kernel), trivial⟩
 
 /-- ... and the conclusion is not trivial: the 6 rows arrive as two records of 3 rows (the function
 was called on groups of 2 rows: 3 calls) -/
